@@ -238,10 +238,12 @@ def write_evidence(pid, cfg, tier, seed, total, wall, violations, extra_assumpti
         'assumptions': list(cfg.get('assumptions', [])) + list(extra_assumptions),
         'wall_s': round(wall, 2), 'violations': int(violations),
     }
-    os.makedirs(os.path.join(VERIF, 'evidence'), exist_ok=True)
-    tmp = os.path.join(VERIF, 'evidence', pid + '.json.tmp')
+    # evidence is only ever written for /repo itself; scratch-copy runs (mutation audit) write beside their output
+    edir = os.path.join(VERIF, 'evidence') if build_key() == 'default' else os.path.join(VERIF, 'out', pid, 'evidence-' + build_key())
+    os.makedirs(edir, exist_ok=True)
+    tmp = os.path.join(edir, pid + '.json.tmp')
     json.dump(ev, open(tmp, 'w'), indent=1)
-    os.replace(tmp, os.path.join(VERIF, 'evidence', pid + '.json'))
+    os.replace(tmp, os.path.join(edir, pid + '.json'))
 
 
 def run_check(pid, tier, seed):
@@ -254,7 +256,7 @@ def run_check(pid, tier, seed):
     for fl in flavours:
         if not build([b], fl):
             return 2
-    outroot = os.path.join(VERIF, 'out', pid, tier)
+    outroot = os.path.join(VERIF, 'out', pid, tier if build_key() == 'default' else tier + '-' + build_key())
     shutil.rmtree(outroot, ignore_errors=True)
     os.makedirs(outroot, exist_ok=True)
     scratch = '/dev/shm/op2verif-%d' % os.getpid()
@@ -354,7 +356,7 @@ def run_check(pid, tier, seed):
                 final = minimise(b, f, kind, tier, seed, scratch)
             data = open(final, 'rb').read()
             h = hashlib.sha1(data).hexdigest()[:12]
-            vdir = os.path.join(VERIF, 'out', pid, 'violations')
+            vdir = os.path.join(VERIF, 'out', pid, 'violations' if build_key() == 'default' else 'violations-' + build_key())
             os.makedirs(vdir, exist_ok=True)
             dst = os.path.join(vdir, '%s-%s.tape' % (kind, h))
             shutil.copy(final, dst)
